@@ -419,7 +419,7 @@ func jobC13(c *rt.Ctx) {
 	})
 	modHook = nil
 	// aliasing: results equal to the unaliased call, inputs unmodified
-	for ai := 0; ai < 6; ai++ {
+	for ai := 0; ai < 7; ai++ {
 		if !c.Take() {
 			continue
 		}
@@ -473,6 +473,26 @@ func jobC13(c *rt.Ctx) {
 			_ = Sign(k, []byte("two"))
 			if !bytes.Equal(s1, keep) {
 				c.Violation("C13 alias sign-result-shared", "a signature returned by Sign changed after a later Sign call", nil)
+			}
+		case 6: // a signature is the caller's up to its capacity; key and message sit in one record
+			seed := seedOf(73)
+			rec := append(append(append([]byte{}, NewKeyFromSeed(seed)...), []byte("message in the same record")...), bytes.Repeat([]byte{0xA5}, 16)...)
+			recKeep := append([]byte{}, rec...)
+			k := PrivateKey(rec[:64])
+			m := rec[64 : len(rec)-16]
+			s1 := Sign(k, m)
+			want := append([]byte{}, s1...)
+			full := s1[:cap(s1)]
+			for i := range full {
+				full[i] = 0xEE
+			}
+			_ = append(s1, 1, 2, 3)
+			s2, e2 := k.Sign(nil, m, &Options{})
+			if !bytes.Equal(rec, recKeep) {
+				c.Violation("C13 alias sign-record", "Sign changed the record holding key || message (or its guard bytes), or overwriting the returned signature's capacity did", nil)
+			}
+			if e2 != nil || !bytes.Equal(s2, want) || !Verify(PublicKey(rec[32:64]), m, want) {
+				c.Violation("C13 alias sign-result-capacity", "after the caller overwrote a returned signature up to its capacity, signing again gives a different signature", nil)
 			}
 		}
 	}
